@@ -199,3 +199,28 @@ func (rm *RegistrationManager) VerifIngest(reg *DecoyRegistration) { rm.ingestRe
 type verifQuietLiveness struct{ verifLiveness }
 
 func (*verifQuietLiveness) PhantomIsLive(addr string, port uint16) (bool, error) { return false, nil }
+
+// VerifBuild builds a registration for the secret (not tracked yet).
+func (rm *RegistrationManager) VerifBuild(secret []byte, tt pb.TransportType, params *anypb.Any) *DecoyRegistration {
+	src := pb.RegistrationSource_API
+	covert := "192.0.2.99:443"
+	w := &pb.C2SWrapper{SharedSecret: secret, RegistrationSource: &src, RegistrationAddress: net.ParseIP("203.0.113.77").To4(),
+		RegistrationPayload: &pb.ClientToStation{V4Support: proto.Bool(true), V6Support: proto.Bool(false), Transport: &tt, TransportParams: params,
+			DecoyListGeneration: proto.Uint32(1), ClientLibVersion: proto.Uint32(4), CovertAddress: &covert}}
+	reg, err := rm.NewRegistrationC2SWrapper(w, false)
+	if err != nil {
+		return nil
+	}
+	return reg
+}
+
+// VerifAge makes the tracked registration `age` old (rewrites the registration
+// time of its timeout record).
+func (rm *RegistrationManager) VerifAge(reg *DecoyRegistration, age time.Duration) bool {
+	to := verifTimeoutOf(rm.registeredDecoys, reg)
+	if to == nil {
+		return false
+	}
+	to.registrationTime = time.Now().Add(-age)
+	return true
+}
